@@ -552,6 +552,11 @@ def build_cpmc_system(spec, harness=False):
     kw = dict(dt=spec["dt"], n_walkers=spec["n_walkers"])
     if "nn" in spec["prop"]:
         pairs = sorted({(min(i, j), max(i, j)) for i in range(n) for j in range(n) if adj[i, j] != 0 and i != j})
+        mode = spec.get("nn_bonds", "lattice")
+        if mode == "open" and len(pairs) > 1:
+            pairs = pairs[:-1]  # open boundary: fewer bonds than sites
+        elif mode == "extended":
+            pairs = sorted(set(pairs) | {(i, j) for i in range(n) for j in range(i + 2, n)})  # more bonds than sites
         kw["neighbors"] = tuple(pairs)
     s.prop = make_propagator(spec["prop"], harness=harness, **kw)
     s.plain = make_propagator(spec["prop"], harness=False, **kw)
